@@ -114,7 +114,7 @@ func observe(typ string, obj interface{}) string {
 	call("Size", 0)
 	for _, n := range containsNames {
 		if v.MethodByName(n).IsValid() {
-			for _, k := range []int{1, 2, 3, newKeyFor(typ)} {
+			for _, k := range []int{1, 2, 3, growthBase, growthBase + 37, newKeyFor(typ)} {
 				call(n, k)
 			}
 			break
@@ -291,59 +291,67 @@ func oracleLockstepType(env *vh.Env, rep *vh.Report, facts lockFacts, c ctor) {
 				reps = 6
 			}
 		}
-		xs = append(append([]ocall{}, xs...), ocall{m, oldKeySeed}) // and M against itself
 		for _, st := range sts {
-			for _, x := range xs {
-				for _, first := range []int{0, 1} {
-					ops := []ocall{x, {m, oldKeySeed}}
-					if first == 1 {
-						ops = []ocall{{m, oldKeySeed}, x}
+			for pi, pk := range st.present {
+				if pi > 0 && !(flagged || env.Thorough) {
+					break
+				}
+				xs2 := append(append([]ocall{}, xs...), ocall{m, pk}) // and M against itself
+				for _, x := range xs2 {
+					if x.name == "Remove" {
+						x.seed = pk
 					}
-					for r := 0; r < reps; r++ {
-						conc, ok := oracleConcurrent(c, st, ops)
-						if !ok {
-							break
+					for _, first := range []int{0, 1} {
+						ops := []ocall{x, {m, pk}}
+						if first == 1 {
+							ops = []ocall{{m, pk}, x}
 						}
-						var seq []string
-						match := false
-						for _, p := range permutations(len(ops)) {
-							s, ok2 := oracleSequential(c, st, ops, p)
-							if !ok2 || s.hung {
-								continue
+						for r := 0; r < reps; r++ {
+							conc, ok := oracleConcurrent(c, st, ops)
+							if !ok {
+								break
 							}
-							seq = append(seq, s.String())
-							if s.String() == conc.String() {
-								match = true
+							var seq []string
+							match := false
+							for _, p := range permutations(len(ops)) {
+								s, ok2 := oracleSequential(c, st, ops, p)
+								if !ok2 || s.hung {
+									continue
+								}
+								seq = append(seq, s.String())
+								if s.String() == conc.String() {
+									match = true
+								}
 							}
-						}
-						repMu.Lock()
-						rep.Case(fmt.Sprintf("oracle-lockstep %s %s %v", c.name, st.name, ops), true)
-						rep.Count("oracle-lockstep:runs")
-						if flagged {
-							rep.Count("oracle-lockstep:tie-A-directed")
-						}
-						if conc.hung {
-							rep.Fail("property", c.name+"."+m+":blocks-forever",
-								fmt.Sprintf("%s: %v started behind the instance lock (state '%s') did not finish within 3 s after its release", c.name, ops, st.name),
-								map[string]interface{}{"type": c.name, "state": st.name, "calls": fmt.Sprint(ops)})
-							hungOnce = true
-						} else if !match && len(seq) > 0 {
-							key := c.name + "." + m + ":not-linearizable"
-							if strings.Contains(conc.String(), "panic") {
-								key = c.name + "." + m + ":panic-under-concurrency"
-							}
-							note := ""
+							repMu.Lock()
+							rep.Case(fmt.Sprintf("oracle-lockstep %s %s %v", c.name, st.name, ops), true)
+							rep.Count("oracle-lockstep:runs")
 							if flagged {
-								note = " (tie A: " + why + ")"
+								rep.Count("oracle-lockstep:tie-A-directed")
 							}
-							rep.Fail("property", key,
-								fmt.Sprintf("%s in state '%s': %v, parked behind the instance lock in this order and released FIFO, gave an outcome that no sequential order of the same calls gives%s", c.name, st.name, ops, note),
-								map[string]interface{}{"type": c.name, "state": st.name, "calls": fmt.Sprint(ops), "concurrent": conc.String(), "sequential_orders": seq,
-									"how": "bring a fresh instance into the state, take its mutex by reflection, start one goroutine per call 1.5 ms apart, release the mutex in starvation (FIFO) mode, compare returns and Size/Contains/ToArray with every sequential order on fresh instances"})
-						}
-						repMu.Unlock()
-						if conc.hung {
-							break
+							if conc.hung {
+								rep.Fail("property", c.name+"."+m+":blocks-forever",
+									fmt.Sprintf("%s: %v started behind the instance lock (state '%s') did not finish within 3 s after its release", c.name, ops, st.name),
+									map[string]interface{}{"type": c.name, "state": st.name, "calls": fmt.Sprint(ops)})
+								hungOnce = true
+							} else if !match && len(seq) > 0 {
+								key := c.name + "." + m + ":not-linearizable"
+								if strings.Contains(conc.String(), "panic") {
+									key = c.name + "." + m + ":panic-under-concurrency"
+								}
+								note := ""
+								if flagged {
+									note = " (tie A: " + why + ")"
+								}
+								rep.Fail("property", key,
+									fmt.Sprintf("%s in state '%s': %v, parked behind the instance lock in this order and released FIFO, gave an outcome that no sequential order of the same calls gives%s", c.name, st.name, ops, note),
+									map[string]interface{}{"type": c.name, "state": st.name, "calls": fmt.Sprint(ops), "concurrent": conc.String(), "sequential_orders": seq,
+										"how": "bring a fresh instance into the state, take its mutex by reflection, start one goroutine per call 1.5 ms apart, release the mutex in starvation (FIFO) mode, compare returns and Size/Contains/ToArray with every sequential order on fresh instances"})
+							}
+							repMu.Unlock()
+							if conc.hung {
+								break
+							}
 						}
 					}
 				}
@@ -365,24 +373,30 @@ func blockingQueues(env *vh.Env, rep *vh.Report) {
 			name = "RequestDoubleQueue"
 		}
 		for _, n := range []int{1, 2, 3, 5} {
-			for r := 0; r < reps; r++ {
+			for r := 0; r < reps*4; r++ {
 				var get func() interface{}
 				var put func(i int) bool
 				var size func() int
+				mode := r % 4 // which put the producers use: all Put, all PutForce, (double: second queue)
 				if dbl {
 					d := queue.NewRequestDoubleQueue(8, 8)
 					get, size = d.Get, d.Size
 					put = func(i int) bool {
-						if i%2 == 0 {
+						switch mode {
+						case 0:
 							return d.Put1(i + 1)
+						case 1:
+							return d.PutForce1(i + 1)
+						case 2:
+							return d.Put2(i + 1)
 						}
-						return d.Put2(i + 1)
+						return d.PutForce2(i + 1)
 					}
 				} else {
 					q := queue.NewRequestQueue(8)
 					get, size = q.Get, q.Size
 					put = func(i int) bool {
-						if i%2 == 0 {
+						if mode%2 == 0 {
 							return q.Put(i + 1)
 						}
 						return q.PutForce(i + 1)
@@ -411,14 +425,14 @@ func blockingQueues(env *vh.Env, rep *vh.Report) {
 				case <-time.After(3 * time.Second):
 					ok = false
 				}
-				rep.Case(fmt.Sprintf("blocked-consumers %s n=%d", name, n), n > 1)
+				rep.Case(fmt.Sprintf("blocked-consumers %s n=%d put-mode=%d", name, n, mode), n > 1)
 				rep.Count("blocked-consumers:runs")
 				if !ok {
 					sz := -1
 					vh.GuardTimeout(time.Second, func() { sz = size() })
 					rep.Fail("property", name+".Get:blocks-forever",
 						fmt.Sprintf("%d consumers blocked in %s.Get(), then %d back-to-back puts: only %d consumers returned within 3 s although Size() = %d", n, name, n, atomic.LoadInt32(&returned), sz),
-						map[string]interface{}{"type": name, "consumers": n, "puts": n, "returned": atomic.LoadInt32(&returned), "size": sz,
+						map[string]interface{}{"type": name, "consumers": n, "puts": n, "put_mode": []string{"Put/Put1", "PutForce/PutForce1", "Put/Put2", "PutForce/PutForce2"}[mode], "returned": atomic.LoadInt32(&returned), "size": sz,
 							"how": "start n goroutines calling Get() on an empty queue, wait 10 ms, call Put n times without pause, wait 3 s"})
 					return // every further run would wait for its watchdog too
 				}
@@ -471,13 +485,14 @@ func presentKeyRound(rep *vh.Report, c ctor) bool {
 	if !has.IsValid() || !ins.IsValid() || has.Type().NumIn() != 1 {
 		return true
 	}
-	insertN(obj, 1, 1)
-	hasArgs, _ := buildArgs(obj, has.Type(), 1, nil)
+	const pk = 5003 // its bucket differs in tables of 101, 203, 407 and 815 buckets
+	insertN(obj, pk, 1)
+	hasArgs, _ := buildArgs(obj, has.Type(), pk, nil)
 	want := canon(has.Call(hasArgs))
 	var getArgs []reflect.Value
 	wantGet := ""
 	if get.IsValid() && get.Type().NumIn() == 1 {
-		getArgs, _ = buildArgs(obj, get.Type(), 1, nil)
+		getArgs, _ = buildArgs(obj, get.Type(), pk, nil)
 		wantGet = canon(get.Call(getArgs))
 	}
 	var bad atomic.Value
@@ -504,14 +519,14 @@ func presentKeyRound(rep *vh.Report, c ctor) bool {
 					got = "panic"
 				}
 				if got != want {
-					bad.Store(fmt.Sprintf("%s(1) = %s", has.Type().String(), got))
+					bad.Store(fmt.Sprintf("Contains(%d) = %s", pk, got))
 				}
 				if wantGet != "" {
 					if o := vh.Guard(func() { got = canon(get.Call(getArgs)) }); !o.OK() {
 						got = "panic"
 					}
 					if got != wantGet {
-						bad.Store(fmt.Sprintf("Get(1) = %s, expected %s", got, wantGet))
+						bad.Store(fmt.Sprintf("Get(%d) = %s, expected %s", pk, got, wantGet))
 					}
 				}
 			}
@@ -536,8 +551,8 @@ func presentKeyRound(rep *vh.Report, c ctor) bool {
 	}
 	if b := bad.Load(); b != nil {
 		rep.Fail("property", c.name+".Get:present-key-reported-absent",
-			fmt.Sprintf("%s: key 1 was inserted first and never removed, two writers grew the table from 1 to 801 entries, a concurrent reader got %v", c.name, b),
-			map[string]interface{}{"type": c.name, "observed": b, "how": "Put(1); 2 goroutines Put 400 new keys each; 2 goroutines loop Contains(1)/Get(1)"})
+			fmt.Sprintf("%s: key 5003 was inserted first and never removed, two writers grew the table from 1 to 801 entries, a concurrent reader got %v", c.name, b),
+			map[string]interface{}{"type": c.name, "observed": b, "how": "Put(5003); 2 goroutines Put 400 new keys each; 2 goroutines loop Contains(5003)/Get(5003)"})
 		return false
 	}
 	return true
